@@ -89,6 +89,34 @@ func QRstep(H, U Matrix, p, q int, inSitu *InSitu) {
 
   // shift
   t3.Set(H22.At(n-1, n-1))
+  if n >= 2 {
+    // use the eigenvalue of the trailing 2x2 block that is closer to its
+    // last diagonal element (Wilkinson shift) if it is real; with the
+    // last diagonal element itself as shift the step leaves blocks such as
+    // [[2,1],[1,2]] unchanged and the iteration never converges
+    h11 := H22.ConstAt(n-2, n-2)
+    h12 := H22.ConstAt(n-2, n-1)
+    h21 := H22.ConstAt(n-1, n-2)
+    h22 := H22.ConstAt(n-1, n-1)
+    // t1 = (h11 - h22)/2, t2 = t1^2 + h12 h21
+    t1.Sub(h11, h22)
+    t1.Div(t1, ConstFloat64(2.0))
+    t2.Mul(t1, t1)
+    c .Mul(h12, h21)
+    t2.Add(t2, c)
+    if t2.GetFloat64() >= 0.0 {
+      // eigenvalues: h22 + t1 +/- sqrt(t2)
+      t3.Add(h22, t1)
+      if t2.GetFloat64() > 0.0 {
+        t2.Sqrt(t2)
+        if t1.GetFloat64() < 0.0 {
+          t3.Add(t3, t2)
+        } else {
+          t3.Sub(t3, t2)
+        }
+      }
+    }
+  }
   for i := 0; i < n; i++ {
     g := H22.At(i, i)
     g.Sub(g, t3)
@@ -112,7 +140,7 @@ func QRstep(H, U Matrix, p, q int, inSitu *InSitu) {
   }
 }
 
-func francisQRstep(H, U Matrix, p, q int, inSitu *InSitu) {
+func francisQRstep(H, U Matrix, p, q int, exceptional bool, inSitu *InSitu) {
 
   var u Matrix
 
@@ -147,6 +175,24 @@ func francisQRstep(H, U Matrix, p, q int, inSitu *InSitu) {
   t1.Mul(h11, h22)
   t2.Mul(h12, h21)
   t .Sub(t1 , t2)
+  if exceptional {
+    // the double-shift step has fixed points (for instance the matrix
+    // [[2,1,0],[1,2,1],[0,1,2]] or cyclic permutation matrices); if the
+    // active block did not change for several steps use ad hoc shifts as
+    // LAPACK's dlahqr does
+    // w = |h(n-1,n-2)| + |h(n-2,n-3)|, a = 3/4 w + h(n-1,n-1),
+    // s = 2 a, t = a^2 + 7/16 w^2
+    t1.Abs(H22.ConstAt(n-1, n-2))
+    t2.Abs(H22.ConstAt(n-2, n-3))
+    t1.Add(t1, t2)
+    t2.Mul(t1, ConstFloat64(0.75))
+    t2.Add(t2, H22.ConstAt(n-1, n-1))
+    s .Mul(t2, ConstFloat64(2.0))
+    t .Mul(t2, t2)
+    t2.Mul(t1, t1)
+    t2.Mul(t2, ConstFloat64(0.4375))
+    t .Add(t, t2)
+  }
 
   h11 = H22.At(0,0)
   h12 = H22.At(0,1)
@@ -272,6 +318,8 @@ func qrAlgorithm(inSitu *InSitu, epsilon float64) (Matrix, Matrix, error) {
     u = u_
   }
 
+  // number of steps for which the active block did not change
+  stalled, p0, q0 := 0, -1, -1
   // apply Francis QR steps
   for p, q := 0, 0; q < n-1; {
 
@@ -287,8 +335,13 @@ func qrAlgorithm(inSitu *InSitu, epsilon float64) (Matrix, Matrix, error) {
     // q: number of rows/cols in H33
     p, q = splitMatrix(h, q)
 
+    if p != p0 || q != q0 {
+      stalled, p0, q0 = 0, p, q
+    } else {
+      stalled++
+    }
     if q < n-1 {
-      francisQRstep(h, u, p, q, inSitu)
+      francisQRstep(h, u, p, q, stalled > 0 && stalled % 10 == 0, inSitu)
     }
   }
   // reduce 2x2 blocks along the diagonal
